@@ -27,6 +27,8 @@ def to_replay_spec(spec, res):
     r = copy.deepcopy(spec)
     r['strategy'] = {'kind': 'replay', 'switches': res['switches'], 'finishes': res['finishes'], 'first': res['first']}
     r['faults'] = [[f[0], f[1], f[2], f[3]] for f in res['fired']]
+    if res.get('instr_fn'):
+        r['instr_fn'] = res['instr_fn']
     r['gcs_at'] = res.get('gcs_at') or []
     r['record'] = True
     return r
